@@ -67,6 +67,22 @@ class Check(PropertyCheck):
         out = sched.run_program(lambda: vm.call(WITNESS), {"r0": 1, "r1": 1}, rng, complete_prob=0.0)
         out["limits"] = {"r0": 1, "r1": 1}
         runs = [("witness", WITNESS, out)] + [("random", o["spec"], o) for o in getattr(self, "runs", [])]
+        # jobs with limits that are rejected BEFORE they reach an executor (unknown executor name), the error caught so
+        # that the execution goes on and other jobs contend for the same resource (seeded change C08b); oracle only
+        for i in range(12 if self.tier == "quick" else 200):
+            lim = {"r0": rng.choice([1, 2]), "r1": 1}
+            dem = lambda: {"limits": {"r0": 1}} if rng.random() < 0.7 else {"limits": {"r0": 1, "r1": 1}}
+            kids = []
+            for j in range(rng.randint(3, 6)):
+                if rng.random() < 0.35:
+                    bad_leaf = (f"px{i}_{j}", "leaf", j, (), {**dem(), "executor": "no_such_executor"})
+                    kids.append((f"pc{i}_{j}", "catchany", 0, (bad_leaf,), None))
+                else:
+                    kids.append((f"pl{i}_{j}", "leaf", j, (), dem()))
+            spec = (f"pn{i}", "list", 0, tuple(kids), None)
+            o = sched.run_program(lambda: vm.call(spec), lim, rng, complete_prob=rng.choice([0.1, 0.5]))
+            o["limits"] = lim
+            runs.append(("pre-executor-reject", spec, o))
         nviol = 0
         for kind, spec, o in runs:
             bad = resource_violations(o)
